@@ -133,8 +133,18 @@ pub fn round_trip(s: &Session, name: &str, arg_tuples: &[Vec<String>], model: Op
                         match o { Outcome::Ok(v) => SerializableValue::from_value(&v, &s.heap.borrow()).ok().map(|sv| sv.to_json()), _ => None }
                     };
                     let got: Option<J> = if o2.status.success() { serde_json::from_slice::<J>(&o2.stdout).ok().map(|j| j["r"].clone()) } else { None };
-                    let exp_is_fn = exp.as_ref().map_or(false, |e| e.get("__blots_function").is_some());
-                    if !exp_is_fn && exp != got {
+                    // function objects inside results print their source, which may differ textually between equivalent functions
+                    fn strip_fns(j: &J) -> J {
+                        match j {
+                            J::Object(m) if m.contains_key("__blots_function") => json!({"__blots_function": true}),
+                            J::Object(m) => J::Object(m.iter().map(|(k, v)| (k.clone(), strip_fns(v))).collect()),
+                            J::Array(a) => J::Array(a.iter().map(strip_fns).collect()),
+                            x => x.clone(),
+                        }
+                    }
+                    let exp = exp.map(|e| strip_fns(&e));
+                    let got = got.map(|g| strip_fns(&g));
+                    if exp != got {
                         problems.push(json!({"what":"cli-pipe","emitted":String::from_utf8_lossy(&p1.stdout),"exp":exp,"obs":got}));
                     }
                 }
